@@ -35,7 +35,7 @@ m = {
     "hooks": {
         "guard": "rust_crdt_verif",
         "enable": "none needed: no source commit in /repo uses the guard; every observation goes through the public API and serde",
-        "baseline_off_cmd": "cd /repo && cargo test --workspace --no-fail-fast --offline",
+        "baseline_off_cmd": "cd /repo/$(cat /w/out/cargo_root.txt) && cargo nextest run --workspace --no-fail-fast --tool-config-file pb:/w/lib/nextest.toml --profile pb --test-threads 8 --offline   # the pinned command of /root/.vp/BASELINE.json; no guard exists, so 'guard OFF' is the plain tree (plain-cargo equivalent: cargo test --offline --workspace --no-fail-fast -- --skip prop_op_reordering_converges, the skipped test being the baseline's always-failing one)",
         "source_commits": [],
         "add_only": True,
     },
